@@ -20,7 +20,7 @@ CHECKS = {
    text="TLC explores the cell-level ring buffer model exhaustively (every reachable (cap, head, tail, written-set) x every operation x operand menu, chunked over-copy K=16, invariants Safe/TypeOK/Accounting/WrittenPrefix); every transition of that graph is replayed on the real RingBuffer (contents against a byte queue, len, free, position invariants); seeded random RingBuffer and DecodeBuffer operation sequences are recorded through hooks (operations and the extents the raw copies actually touched) and validated against the trace specification, so over-reads that never change contents are detected. Exhaustive within the bounds, sampled beyond them; the index arithmetic alone (RingArith.tla: extend with and without growth, drop, clear) is proved for arbitrary capacities: Apalache discharges Init => IndInv and IndInv /\\ Next => IndInv' symbolically, TLC bridges its modulo-free wrap to the % form of the code.",
    note="compiler and allocator trusted; bounds cap<=33 (quick) / <=65 (thorough), larger capacities only through random traces (cap<=129); K=8 path on the specification only", technique=TECH),
  "C05": dict(level=MC, design="5/C05",
-   text="FrameDecoder.tla has no successful transition for a block regenerating more than 128 KiB (invariant Bounded05); explored over hostile frames (blocks at exactly 128 KiB and one byte more by sequences and by RLE literals, 1000 / 32800 maximum-length matches, a window-sized block after the window was filled) x all strategies, every transition replayed on the real decoder; every frame x strategy x front end additionally runs in a child process under a counting allocator with heap cap and deadline: bytes held beyond the window and heap peak must stay within window + requested + 128 KiB.",
+   text="FrameDecoder.tla has no successful transition for a block regenerating more than 128 KiB (invariant Bounded05); explored over hostile frames (blocks at exactly 128 KiB and one byte more by sequences and by RLE literals, 1000 / 32800 maximum-length matches, a window-sized block after the window was filled) x all strategies, every transition replayed on the real decoder; every frame x strategy x front end additionally runs in a child process under a counting allocator with heap cap and deadline: bytes held beyond the window and heap peak must stay within window + requested + 128 KiB; the incremental strategies run again on a decoder that has just finished a frame with an 8 MiB window, and what one collect() hands out must stay within this frame's window + requested + 128 KiB.",
    note="heap bound 2*(window+requested+128 KiB) + slack; bombs via sequences and RLE literals", technique=TECH),
  "C06": dict(level=MC, design="5/C06",
    text="FrameDecoder.tla (decode_blocks with all strategies, collect, read, collect_to_writer over scripted sinks and the physical two-segment ring arithmetic, decode_from_to, StreamingDecoder read) is explored exhaustively up to a call bound per frame over materialised frames; every transition is replayed on the real FrameDecoder/StreamingDecoder with slice and fragmenting sources; delivered bytes, errors, final checksums, consumed counts and the decode_from_to contract are the violation criteria, exact intermediate values are conformance (drift) only; random legal schedules over decodecorpus / libzstd / ruzstd frames add real sizes. Frames incl. raw blocks straddling the ring end (rawwrap) and a zero dictionary id field; in one replay variant the buffered bytes of a frame that a Reset abandons are drained and checked first. Recorded schedules on real frames are validated against Trace_FrameDecoder.tla.",
